@@ -12,6 +12,7 @@ import FrourosModel.Batch
 import FrourosModel.Config
 import FrourosModel.Misc
 import FrourosModel.Tests2
+import FrourosModel.StreamKS
 namespace Frouros
 open Wire
 
@@ -206,6 +207,7 @@ structure Aux where
   hist : History.State Nat := History.init
   smmd : MMD.Stream Float (List Float) := MMD.Stream.init 1 none
   sigma : Float := 1.0
+  iks : IncKS.State Float := IncKS.init 1
 
 def showQ (q : CQ Float) : String :=
   s!"{q.count} {bit q.isEmpty} {bit q.isFull} [" ++ " ".intercalate (q.toList.map (fun o => match o with | some v => "x" ++ hexOfFloat v | none => "-")) ++ "]"
@@ -266,6 +268,15 @@ def cmdAux (a : Aux) (args : List String) : Aux × String :=
     let (r, s) := MMD.Stream.update (MMD.rbf a.sigma) a.smmd (parseFloats rest)
     ({ a with smmd := s }, match r with | none => "-" | some v => "x" ++ hexOfFloat v)
   | ["sr"] => ({ a with smmd := a.smmd.reset }, "ok")
+  -- incremental KS: `kn w` | `kf xs…` | `ku v` | `kr`
+  | ["kn", w] => ({ a with iks := IncKS.init w.toNat! }, "ok")
+  | "kf" :: rest => ({ a with iks := IncKS.fit a.iks (parseFloats rest) }, "ok")
+  | ["ku", v] =>
+    let (r, s) := IncKS.update a.iks (fl v)
+    ({ a with iks := s }, match r with
+      | none => "-"
+      | some r => s!"x{hexOfFloat r.statistic} {r.h} x{hexOfFloat (if r.h == 0 then 1.0 else KS.ratioToFloat r.p.1 r.p.2)}")
+  | ["kr"] => ({ a with iks := IncKS.reset a.iks }, s!"{a.iks.n}")
   -- history callback: `hn` | `ha n1,n2,…` | `hu <tag>` | `hr`  → `name:len` per tracked list
   | "hn" :: _ => let h : History.State Nat := History.init; ({ a with hist := h }, showH h)
   | ["ha", names] => let h := History.addVars a.hist ((names.splitOn ",").filter (· != "")); ({ a with hist := h }, showH h)
